@@ -392,6 +392,35 @@ def sha1_rules(ctx):
         flat_w = [i_ for x in from_words for _s, i_ in x]
         if from_words:
             ctx.ob("SHA1", "message-words-in-order", flat_w == list(range(16)), f"the message words are loaded into the vectors as words{flat_w}; must be words[0..16] in order", pb_.file, pb_.line)
+        # the working variables are added back into the state word of the same index
+        backs = []
+        for bi_, t_ in pb_.calls():
+            if not (t_.get("res") or "").endswith("wrapping_add") or len(t_["args"]) != 2:
+                continue
+            r0 = pix_.resolve(t_["args"][0])
+            if r0[0] != "place" or not any(isinstance(pr_, dict) and pr_.get("n") == "state" for pr_ in r0[1].get("p", [])):
+                continue
+            kin = None
+            for pr_ in r0[1]["p"]:
+                if isinstance(pr_, dict) and "i" in pr_:
+                    c_ = pix_.resolve({"c": {"l": pr_["i"], "p": []}})
+                    kin = c_[1] if c_[0] == "const" else None
+            if kin is None:
+                continue
+            kout = None
+            dl_ = t_["dest"]["l"]
+            for _b2, _s2, st2 in pb_.stmts():
+                rv2 = st2.get("rv") or {}
+                src2 = ((rv2.get("a") or {}).get("m") or (rv2.get("a") or {}).get("c") or {}) if rv2.get("k") == "use" else {}
+                if st2.get("k") == "assign" and src2.get("l") == dl_ and any(isinstance(pr_, dict) and pr_.get("n") == "state" for pr_ in st2["lhs"].get("p", [])):
+                    for pr_ in st2["lhs"]["p"]:
+                        if isinstance(pr_, dict) and "i" in pr_:
+                            c_ = pix_.resolve({"c": {"l": pr_["i"], "p": []}})
+                            kout = c_[1] if c_[0] == "const" else None
+            if kout is not None:
+                backs.append((kin, kout))
+        if backs:
+            ctx.ob("SHA1", "state-add-back", all(a_ == b2 for a_, b2 in backs) and sorted(b2 for _a, b2 in backs) == [0, 1, 2, 3, 4], f"state words are updated as (read index, written index) {backs}; each of state[0..5] is added to and stored back under its own index", pb_.file, pb_.line)
         from_state = [x for x in word_seq if all(s_ == "state" for s_, _i in x)]
         if from_state:
             ctx.ob("SHA1", "state-words-in-order", [i_ for _s, i_ in from_state[0]] == [0, 1, 2, 3], f"the chaining state is loaded as state{[i_ for _s, i_ in from_state[0]]}; must be state[0..4]", pb_.file, pb_.line)
